@@ -122,4 +122,220 @@ theorem polUpdate_none (on : Bool) (p : Cache.Pol) (m : Cache.Met) (k : Hash) (c
     (hl : lookup p.costs k = none) : Cache.polUpdate on p m k cost = (p, m, false) := by
   unfold Cache.polUpdate; rw [lookup_eq, hl]
 
+theorem polUpdate_met_off (p : Cache.Pol) (m : Cache.Met) (k : Hash) (cost : Int) :
+    (Cache.polUpdate false p m k cost).2.1 = m := by
+  unfold Cache.polUpdate; split <;> rfl
+
+theorem lookup_isSome_of_mem_keys {kcs : List KC} {k : Hash} (h : k ∈ keys kcs) : (lookup kcs k).isSome = true := by
+  cases hl : lookup kcs k with
+  | none => exact absurd h (lookup_eq_none.1 hl)
+  | some c => rfl
+
+/-! ### every victim was accounted when `Add` started -/
+
+theorem loop_victims_resident {est : Hash → Int} (hest : EstOK est) (key : Hash) (cost : Int) {inc : Int}
+    (hinc : IncOK inc) (K : List Hash) (enums : List (List KC)) (p : Pol) (carry : List KC)
+    (hlen : carry.length ≤ Gen.Policy.lfuSample.toNat) (hK : ∀ k ∈ keys p.keyCosts, k ∈ K)
+    (hc : ∀ x ∈ carry, x.1 ∈ K)
+    (hadm : ∀ r ∈ (evictLoop est key cost inc enums p carry).rounds, Admissible r.before.keyCosts r.carry r.enum) :
+    ∀ v ∈ (evictLoop est key cost inc enums p carry).victims, v.1 ∈ K := by
+  have h5 := lfuSample_eq
+  induction enums generalizing p carry with
+  | nil =>
+    cases hnr : needRoom (roomLeft p.maxCost p.used cost) with
+    | true => rw [evictLoop_stuck est key cost inc p carry hnr]; simp
+    | false => rw [evictLoop_done est key cost inc [] p carry hnr]; simp
+  | cons enum rest ih =>
+    cases hnr : needRoom (roomLeft p.maxCost p.used cost) with
+    | false => rw [evictLoop_done est key cost inc _ p carry hnr]; simp
+    | true =>
+      cases hr : incLess inc (scan est (fillSample carry enum)).hits with
+      | true => rw [evictLoop_reject est key cost inc enum rest p carry hnr hr]; simp
+      | false =>
+        have hcl : carry.length < 2 ^ 63 := by omega
+        have hsl : (fillSample carry enum).length ≤ Gen.Policy.lfuSample.toNat := by
+          rw [length_fillSample carry enum hcl]; omega
+        obtain ⟨hne, s', hs'⟩ := round_not_rejected hest hinc (by omega) hr
+        have hsp := scan_spec hest hne
+        rw [evictLoop_continue est key cost inc enum rest p carry s' hnr hr hs'] at hadm ⊢
+        simp only [List.mem_cons, forall_eq_or_imp] at hadm
+        have hsK : ∀ x ∈ fillSample carry enum, x.1 ∈ K := by
+          intro x hx
+          rcases mem_fillSample hcl hx with hx | hx
+          · exact hc x hx
+          · exact hK _ (mem_keys.2 ⟨x.2, hadm.1.2.1 x hx⟩)
+        have hsub := fun x hx => mem_of_mem_swapRemove hsp.1 (by omega) hs' (x := x) hx
+        have hl' := length_swapRemove hsp.1 (by omega) hs'
+        have hK' : ∀ k ∈ keys (p.del (scan est (fillSample carry enum)).key).keyCosts, k ∈ K := by
+          intro k hk
+          rw [Pol.del_keyCosts] at hk
+          exact hK k (mem_keys_erase.1 hk).1
+        have IH := ih (p.del (scan est (fillSample carry enum)).key) s' (by omega) hK'
+          (fun x hx => hsK x (hsub x hx)) hadm.2
+        intro v hv
+        simp only [List.mem_cons] at hv
+        rcases hv with hv | hv
+        · subst hv
+          exact hsK _ (List.mem_of_getElem? hsp.2.1)
+        · exact IH v hv
+
+/-! ### the refinement -/
+
+/-- **`polAdd` accepts every outcome of the exact `Add` and computes the same state.**
+For every cache policy state `p` that is well-formed and does not overflow with `cost`,
+every estimator with `int64` estimates below MaxInt64, every list of admissible enumerations
+(also when the list is too short and the exact `Add` is cut short — `status = stuck` — which
+is a prefix of the real run: the victims so far, not admitted): with `(victims, admitted)` the exact
+outcome, `polAdd on p m key cost victims admitted` is `some (p'', m'')`, `p''` is the exact
+final state, and with metrics off `m'' = m`. -/
+theorem add_refines_polAdd_on (on : Bool) (p : Cache.Pol) (m : Cache.Met) (est : Hash → Int) (hest : EstOK est)
+    (enums : List (List KC)) (key : Hash) (cost : Int)
+    (hwf : (toPolicy p).wf) (hno : (toPolicy p).NoOvf cost)
+    (hadm : ((toPolicy p).addFull est enums key cost).Admissible) :
+    ∃ pm, Cache.polAdd on p m key cost ((toPolicy p).addFull est enums key cost).victims
+        ((toPolicy p).addFull est enums key cost).admitted = some pm ∧
+      toPolicy pm.1 = ((toPolicy p).addFull est enums key cost).pol ∧ (on = false → pm.2 = m) := by
+  have hr := Pol.ranges hwf hno
+  by_cases hbig : (toPolicy p).maxCost < cost
+  · rw [addFull_tooBig est enums key hr.2.2.1 hr.2.1 hbig]
+    have hb : cost > p.maxCost := hbig
+    exact ⟨(p, m), by simp [Cache.polAdd, hb], rfl, fun _ => rfl⟩
+  · have hb : ¬ cost > p.maxCost := hbig
+    cases hl : lookup (toPolicy p).keyCosts key with
+    | some prev =>
+      rw [addFull_existing est enums key hr.2.2.1 hr.2.1 hbig hl]
+      have hu := toPolicy_polUpdate on p m key hwf hno hl
+      refine ⟨((Cache.polUpdate on p m key cost).1, (Cache.polUpdate on p m key cost).2.1), ?_, hu.1, ?_⟩
+      · unfold Cache.polAdd
+        rw [if_neg hb]
+        cases hq : Cache.polUpdate on p m key cost with
+        | mk p1 r =>
+          cases r with
+          | mk m1 b =>
+            rw [hq] at hu
+            have hb' : b = true := hu.2
+            subst hb'
+            simp
+      · intro h; subst h; exact polUpdate_met_off p m key cost
+    | none =>
+      have hl' : lookup p.costs key = none := hl
+      by_cases hroom : 0 ≤ (toPolicy p).maxCost - ((toPolicy p).used + cost)
+      · rw [addFull_fits est enums key hwf hno hbig hl hroom]
+        have hroom' : p.maxCost - (p.used + cost) ≥ 0 := hroom
+        refine ⟨Cache.polAddKey on p m key cost, ?_, toPolicy_polAddKey on p m key hwf hno, ?_⟩
+        · unfold Cache.polAdd
+          rw [if_neg hb, polUpdate_none on p m key cost hl']
+          have hroom'' : p.used + cost ≤ p.maxCost := by omega
+          simp [hroom'']
+        · intro h; subst h; rfl
+      · have hroom' : ¬ p.maxCost - (p.used + cost) ≥ 0 := hroom
+        have hroom'' : ¬ p.used + cost ≤ p.maxCost := by omega
+        have he := addFull_loop est enums key hwf hno hbig hl (by omega)
+        have hk := hest key
+        have hinc : IncOK (est key) := by unfold IncOK; omega
+        unfold AddOut.Admissible at hadm
+        rw [he] at hadm ⊢
+        -- facts about the loop
+        have hres := loop_victims_resident hest key cost hinc (keys p.costs) enums (toPolicy p) []
+          (by simp) (fun k hk => hk) (by intro x hx; simp at hx) hadm
+        have hpol := loop_pol_eq est key cost (est key) enums (toPolicy p) []
+        have hinv := loop_inv est key cost (est key) enums (toPolicy p) [] hwf hno hl
+        have hmax := loop_maxCost est key cost (est key) enums (toPolicy p) []
+        generalize evictLoop est key cost (est key) enums (toPolicy p) [] = o at *
+        have hall : (o.victims.all fun v => p.costs.contains v.1) = true := by
+          rw [List.all_eq_true]
+          intro v hv
+          rw [contains_eq]
+          exact lookup_isSome_of_mem_keys (hres v hv)
+        have hda := toPolicy_polDelAll on p m o.victims hwf hno
+        have hdw := delAll_wf_noOvf o.victims hwf hno
+        cases hq : Cache.polDelAll on p m o.victims with
+        | mk p2 m2 =>
+          rw [hq] at hda
+          simp only at hda
+          have hm2 : on = false → m2 = m := by
+            intro h; subst h
+            have := polDelAll_met_off p m o.victims
+            rw [hq] at this; exact this
+          cases hadmit : o.admitted with
+          | false =>
+            rw [hadmit] at hpol
+            simp only [Bool.false_eq_true, if_false] at hpol
+            refine ⟨(p2, if on then { m2 with rejectSets := m2.rejectSets + 1 } else m2), ?_, ?_, ?_⟩
+            · unfold Cache.polAdd
+              rw [if_neg hb, polUpdate_none on p m key cost hl']
+              simp [hroom'', hall, hq]
+            · rw [hpol]; exact hda
+            · intro h; subst h; exact hm2 rfl
+          | true =>
+            rw [hadmit] at hpol
+            simp only [if_true] at hpol
+            have hfit := hinv.fits hadmit
+            have hu2 : (delAll (toPolicy p) o.victims).evictAdd key cost =
+                toPolicy (Cache.polAddKey on p2 m2 key cost).1 := by
+              rw [toPolicy_polAddKey on p2 m2 key (by rw [hda]; exact hdw.1) (by rw [hda]; exact hdw.2), hda]
+            have hused : o.pol.used = p2.used + cost := by
+              rw [hpol, Pol.evictAdd_used key hdw.1 hdw.2, ← hda]; rfl
+            have hmx : o.pol.maxCost = p2.maxCost := by
+              rw [hpol, Pol.evictAdd_maxCost, ← hda]; rfl
+            have hfit2 : p2.maxCost - (p2.used + cost) ≥ 0 := by omega
+            have hne : o.victims.isEmpty = false := by
+              cases hv : o.victims with
+              | nil =>
+                exfalso
+                rw [hv] at hq
+                simp only [Cache.polDelAll] at hq
+                injection hq with h1 h2
+                subst h1
+                exact hroom' hfit2
+              | cons v rest => rfl
+            refine ⟨Cache.polAddKey on p2 m2 key cost, ?_, ?_, ?_⟩
+            · unfold Cache.polAdd
+              rw [if_neg hb, polUpdate_none on p m key cost hl']
+              have hfit3 : p2.used + cost ≤ p2.maxCost := by omega
+              simp [hroom'', hall, hq, hfit3, hne]
+            · rw [hpol]; exact hu2.symm
+            · intro h; subst h; exact hm2 rfl
+
+/-- Metrics off (`polAdd false`): the metrics record is untouched. -/
+theorem add_refines_polAdd (p : Cache.Pol) (m : Cache.Met) (est : Hash → Int) (hest : EstOK est)
+    (enums : List (List KC)) (key : Hash) (cost : Int)
+    (hwf : (toPolicy p).wf) (hno : (toPolicy p).NoOvf cost)
+    (hadm : ((toPolicy p).addFull est enums key cost).Admissible) :
+    ∃ p'', Cache.polAdd false p m key cost ((toPolicy p).add est enums key cost).2.1
+        ((toPolicy p).add est enums key cost).2.2 = some (p'', m) ∧
+      toPolicy p'' = ((toPolicy p).add est enums key cost).1 := by
+  obtain ⟨pm, h1, h2, h3⟩ := add_refines_polAdd_on false p m est hest enums key cost hwf hno hadm
+  refine ⟨pm.1, ?_, h2⟩
+  simp only [Pol.add]
+  rw [h1, ← h3 rfl]
+
+/-- With admissible enumerations and `6 · |keyCosts|` of them the exact `Add` completes. -/
+theorem add_ok_of_admissible (p : Cache.Pol) (est : Hash → Int) (hest : EstOK est)
+    (enums : List (List KC)) (key : Hash) (cost : Int)
+    (hwf : (toPolicy p).wf) (hno : (toPolicy p).NoOvf cost)
+    (hadm : ((toPolicy p).addFull est enums key cost).Admissible)
+    (hn : 6 * p.costs.length ≤ enums.length) :
+    ((toPolicy p).addFull est enums key cost).status = .ok := by
+  have hr := Pol.ranges hwf hno
+  by_cases hbig : (toPolicy p).maxCost < cost
+  · rw [addFull_tooBig est enums key hr.2.2.1 hr.2.1 hbig]
+  · cases hl : lookup (toPolicy p).keyCosts key with
+    | some prev => rw [addFull_existing est enums key hr.2.2.1 hr.2.1 hbig hl]
+    | none =>
+      by_cases hroom : 0 ≤ (toPolicy p).maxCost - ((toPolicy p).used + cost)
+      · rw [addFull_fits est enums key hwf hno hbig hl hroom]
+      · have he := addFull_loop est enums key hwf hno hbig hl (by omega)
+        have hk := hest key
+        unfold AddOut.Admissible at hadm
+        rw [he] at hadm ⊢
+        have h1 := (loop_real hest key cost (by unfold IncOK; omega) enums (toPolicy p) [] hwf hno (by simp)
+          (by intro x hx; simp at hx) hadm).no_panic
+        have h2 := loop_not_stuck hest key cost (by unfold IncOK; omega) enums (toPolicy p) [] hwf hno (by omega)
+          (by simp) hadm (by simp only [loopMeasure, stale, List.countP_nil, toPolicy_keyCosts]; exact hn)
+        cases hs : (evictLoop est key cost (est key) enums (toPolicy p) []).status with
+        | ok => rfl
+        | stuck => exact absurd hs h2
+        | panic => exact absurd hs h1
+
 end RV.Policy
